@@ -170,7 +170,21 @@ func c08reproProgram(rng *rand.Rand) (src string, wantValue string) {
 		}
 		return strings.Join(p, ", ")
 	}
-	switch rng.Intn(18) {
+	switch rng.Intn(20) {
+	case 18, 19:
+		// keys whose printed forms tie (floats print six decimals; equal-looking keys of different kinds): printing sorts by the printed key, so ties must be settled by something other than the hash-table layout
+		var ps []string
+		for i := range names {
+			switch rng.Intn(3) {
+			case 0:
+				ps = append(ps, fmt.Sprintf("1.%07d: %d", i+1, i+1))
+			case 1:
+				ps = append(ps, fmt.Sprintf("%d.5e-9: %d", i+1, i+1))
+			default:
+				ps = append(ps, fmt.Sprintf("(0.1 * %d + 0.2): %d", i, i+1))
+			}
+		}
+		return "m := %{" + strings.Join(ps, ", ") + "}\nm.p; m.S.p; m.repr.p; [m].p; {a: m}.p; %{**m}.p; m.keys.p; raise Err.new(m.S)", ""
 	case 16, 17:
 		// containers compared with == / !=: their elements' own `==` (user-defined, printing) is called in a fixed order
 		var xs, ys []string
